@@ -239,16 +239,14 @@ theorem scanKeys_no_weight (num : String → Option Rat) (weightKey : String) (k
   | cons k ks ih =>
     unfold scanKeys at h
     have hk := hno k (by simp)
-    split at h
-    · simp only [hk, Bool.false_eq_true, if_false] at h
+    cases hid : k.id with
+    | none => rw [hid] at h; cases h
+    | some id =>
+      rw [hid] at h
+      simp only [hk, Bool.false_eq_true, if_false] at h
       split at h
       · cases h
-      · split at h
-        · cases h
-        · split at h
-          · cases h
-          · exact ih _ (fun k' hk' => hno k' (List.mem_cons_of_mem _ hk')) h
-    · cases h
+      · exact ih _ (fun k' hk' => hno k' (List.mem_cons_of_mem _ hk')) h
 
 /-! ### non-refusal -/
 
@@ -277,22 +275,50 @@ theorem endpoint_ok (nodeIds : List String) (parseNat : String → Option Nat) (
     rw [← hget]
     exact hkl
 
+theorem otherData_ok (num : String → Option Rat) (reg : List OtherKey) (kind : String) (d : String × String)
+    (h : DataOk num reg kind d) : otherData num reg kind d.1 d.2 = .ok () := by
+  obtain ⟨⟨o0, ho0, hid0⟩, hall⟩ := h
+  unfold otherData
+  cases hf : reg.reverse.find? (fun o => decide (o.id = d.1)) with
+  | none =>
+    rw [List.find?_eq_none] at hf
+    have := hf o0 (List.mem_reverse.mpr ho0)
+    simp [hid0] at this
+  | some o =>
+    have hmem : o ∈ reg := List.mem_reverse.mp (List.mem_of_find?_eq_some hf)
+    have hid : o.id = d.1 := by simpa using List.find?_some hf
+    obtain ⟨hholds, v, hv⟩ := hall o hmem hid
+    simp only [hv]
+    have h1 : reg.any (fun o' => holds o'.for_ kind) = true :=
+      List.any_eq_true.mpr ⟨o, hmem, hholds⟩
+    have h2 : reg.any (fun o' => holds o'.for_ kind && o'.name == o.name) = true :=
+      List.any_eq_true.mpr ⟨o, hmem, by simp [hholds]⟩
+    simp [h1, h2]
+
+/-- an edge datum is either the weight (of the declared type) or a well-formed datum of another key -/
+def EdgeDatumOk (num : String → Option Rat) (ws : WeightSpec) (reg : List OtherKey) (d : String × String) : Prop :=
+  (some d.1 = ws.id ∧ ∃ w, convert num ws.ptype d.2 = .ok w) ∨ (some d.1 ≠ ws.id ∧ DataOk num reg "edge" d)
+
 theorem foldl_weightStep_ok (num : String → Option Rat) (ws : WeightSpec) (others : List OtherKey)
     (l : List (String × String)) (w0 : Rat)
-    (h : ∀ d ∈ l, some d.1 = ws.id ∧ ∃ w, convert num ws.ptype d.2 = .ok w) :
+    (h : ∀ d ∈ l, EdgeDatumOk num ws others d) :
     ∃ w, l.foldl (weightStep num ws others) (.ok w0) = .ok w := by
   induction l generalizing w0 with
   | nil => exact ⟨w0, rfl⟩
   | cons d ds ih =>
     simp only [List.foldl_cons]
-    obtain ⟨hid, w, hw⟩ := h d (by simp)
-    have : weightStep num ws others (.ok w0) d = .ok w := by
-      simp only [weightStep, hid, if_true, hw]
-    rw [this]
-    exact ih w (fun d' hd' => h d' (List.mem_cons_of_mem _ hd'))
+    rcases h d (by simp) with ⟨hid, w, hw⟩ | ⟨hid, hd⟩
+    · have : weightStep num ws others (.ok w0) d = .ok w := by
+        simp only [weightStep, hid, if_true, hw]
+      rw [this]
+      exact ih w (fun d' hd' => h d' (List.mem_cons_of_mem _ hd'))
+    · have : weightStep num ws others (.ok w0) d = .ok w0 := by
+        simp only [weightStep, hid, if_false, otherData_ok num others "edge" d hd]
+      rw [this]
+      exact ih w0 (fun d' hd' => h d' (List.mem_cons_of_mem _ hd'))
 
 theorem edgeWeight_ok (num : String → Option Rat) (ws : WeightSpec) (others : List OtherKey) (c : Child)
-    (h : ∀ d ∈ c.data, some d.1 = ws.id ∧ ∃ w, convert num ws.ptype d.2 = .ok w) :
+    (h : ∀ d ∈ c.data, EdgeDatumOk num ws others d) :
     ∃ w, edgeWeight num ws others c = .ok w := by
   rw [edgeWeight_eq]
   exact foldl_weightStep_ok num ws others c.data ws.default h
@@ -300,7 +326,7 @@ theorem edgeWeight_ok (num : String → Option Rat) (ws : WeightSpec) (others : 
 theorem triples_ok (num : String → Option Rat) (parseNat : String → Option Nat) (ws : WeightSpec)
     (others : List OtherKey) (symmetrize : Bool) (nodeIds : List String) (cs : List Child)
     (h : ∀ c ∈ cs, (∃ s ∈ nodeIds, c.source = some s) ∧ (∃ t ∈ nodeIds, c.target = some t) ∧
-        ∀ d ∈ c.data, some d.1 = ws.id ∧ ∃ w, convert num ws.ptype d.2 = .ok w) :
+        ∀ d ∈ c.data, EdgeDatumOk num ws others d) :
     ∃ ts, triples num parseNat ws others true symmetrize nodeIds cs = .ok ts ∧
       ∀ t ∈ ts, t.1 < nodeIds.length ∧ t.2.1 < nodeIds.length := by
   induction cs with
@@ -326,13 +352,71 @@ theorem triples_ok (num : String → Option Rat) (parseNat : String → Option N
       · exact ⟨hil, hjl⟩
       · exact hlt x hx
 
+theorem foldl_data_ok (num : String → Option Rat) (others : List OtherKey) (l : List (String × String))
+    (h : ∀ d ∈ l, DataOk num others "node" d) :
+    l.foldl (dataStep num others "node") (.ok ()) = .ok () := by
+  induction l with
+  | nil => rfl
+  | cons d ds ih =>
+    simp only [List.foldl_cons, dataStep, otherData_ok num others "node" d (h d (by simp))]
+    exact ih (fun d' hd' => h d' (List.mem_cons_of_mem _ hd'))
+
 theorem nodesData_ok (num : String → Option Rat) (others : List OtherKey) (nodes : List Child)
-    (h : ∀ c ∈ nodes, c.data = []) : nodesData num others nodes = .ok () := by
+    (h : ∀ c ∈ nodes, ∀ d ∈ c.data, DataOk num others "node" d) : nodesData num others nodes = .ok () := by
   unfold nodesData
   induction nodes with
   | nil => rfl
   | cons c cs ih =>
-    simp only [List.foldl_cons, h c (by simp), List.foldl_nil]
+    simp only [List.foldl_cons]
+    rw [foldl_data_ok num others c.data (h c (by simp))]
     exact ih (fun c' hc' => h c' (List.mem_cons_of_mem _ hc'))
+
+theorem convertAll_ok (num : String → Option Rat) (t : Option PType) (l : List String) (acc : Option Rat)
+    (h : ∀ x ∈ l, ∃ v, convert num t x = .ok v) : ∃ r, convertAll num t l acc = .ok r := by
+  induction l generalizing acc with
+  | nil => exact ⟨acc, rfl⟩
+  | cons x xs ih =>
+    obtain ⟨v, hv⟩ := h x (by simp)
+    unfold convertAll
+    rw [hv]
+    exact ih (some v) (fun y hy => h y (List.mem_cons_of_mem _ hy))
+
+/-- keys that are read without error: the scan succeeds and registers exactly the keys that are not the weight key -/
+theorem scanKeys_ok (num : String → Option Rat) (weightKey : String) (keys : List Key) (ws : WeightSpec)
+    (others : List OtherKey) (h : ∀ k ∈ keys, KeyOk num k) :
+    ∃ ws', scanKeys num weightKey keys ws others = .ok (ws', others ++ registered weightKey keys) := by
+  induction keys generalizing ws others with
+  | nil => exact ⟨ws, by simp [scanKeys, registered]⟩
+  | cons k ks ih =>
+    obtain ⟨hid, hdef⟩ := h k (by simp)
+    have hks := fun k' hk' => h k' (List.mem_cons_of_mem _ hk')
+    unfold scanKeys
+    cases hkid : k.id with
+    | none => rw [hkid] at hid; cases hid
+    | some id =>
+      simp only
+      by_cases hw : isWeightKey weightKey k = true
+      · simp only [hw, if_true]
+        obtain ⟨r, hr⟩ := convertAll_ok num (ptypeOf k.typeD) k.defaults none hdef
+        rw [hr]
+        simp only
+        obtain ⟨ws', hws'⟩ := ih _ others hks
+        refine ⟨ws', ?_⟩
+        rw [hws']
+        simp [registered, hw]
+      · have hw' : isWeightKey weightKey k = false := by simpa using hw
+        simp only [hw', Bool.false_eq_true, if_false]
+        have hconv : ∃ r, (if k.forD = "node" ∨ k.forD = "edge" ∨ k.forD = "all"
+            then convertAll num (ptypeOf k.typeD) k.defaults none else .ok none) = .ok r := by
+          by_cases hf : k.forD = "node" ∨ k.forD = "edge" ∨ k.forD = "all"
+          · simp only [hf, if_true]; exact convertAll_ok num _ _ none hdef
+          · simp only [hf, if_false]; exact ⟨none, rfl⟩
+        obtain ⟨r, hr⟩ := hconv
+        rw [hr]
+        simp only
+        obtain ⟨ws', hws'⟩ := ih ws (others ++ [⟨id, k.nameD, ptypeOf k.typeD, k.forD⟩]) hks
+        refine ⟨ws', ?_⟩
+        rw [hws']
+        simp [registered, hw', regKey, hkid, List.append_assoc]
 
 end SkNet.GraphML
